@@ -37,6 +37,7 @@ RULE = ("(a) Rule-guided valid EML trees rooted at eml / dataset / dataTable / o
         "recommendations (must / must not / unspecified) must contain every 'must' and no 'must not'.  Non-trivial: >= 3 "
         "different codes are 'must' and a threshold quantity sits on its boundary; distinct trees by hash.")
 RULE += ('  Some constructed trees give two or three nodes the same explicit id.')
+RULE += ("  The 'several paras' abstract form puts a para without text of its own next to the counted text two times out of three.")
 ASSUMPTIONS = [
     "what the statement leaves open is 'unspecified' in the model (title without direct text or with tab/newline separators, "
     "text only in inline children, several disagreeing physical/authentication/abstract siblings, parties holding only "
